@@ -57,6 +57,9 @@ func (c *gadgetCircuit) Define(api frontend.API) error {
 		cfg := cm.FriParams.Config
 		cfg.ProofOfWorkBits = gc.N
 		fn[func(*fri.Chip, gl.Variable, types.FriConfig)]("fri.Chip.assertLeadingZeros")(fc, v(0), cfg)
+	case "PowVerify0", "PowVerify1", "PowVerify2":
+		ar := map[string][]uint64{"PowVerify0": {}, "PowVerify1": {1}, "PowVerify2": {4, 4}}[c.Gadget]
+		powThroughVerify(api, v(0), 16, ar)
 	case "MulAdd":
 		api.AssertIsEqual(chip.MulAdd(v(0), v(1), v(2)).Limb, c.Out[0])
 	case "Add":
